@@ -16,7 +16,7 @@ git apply $SRC/patch.diff
 DEMO=$(ls $SRC/demo_*.py | head -1)
 echo "== import"; PYTHONPATH=$WT /venv/bin/python -c "import accelforge" && echo import-ok
 echo "== demo WITH change (expect exit 1)"; (cd $WT && PYTHONPATH=$WT timeout 1200 /venv/bin/python $DEMO > /tmp/sv/$NAME.demo_mut.log 2>&1; echo "exit=$?"; tail -3 /tmp/sv/$NAME.demo_mut.log)
-echo "== demo WITHOUT change (expect exit 0)"; (cd /repo && PYTHONPATH=/repo timeout 1200 /venv/bin/python $DEMO > /tmp/sv/$NAME.demo_clean.log 2>&1; echo "exit=$?"; tail -2 /tmp/sv/$NAME.demo_clean.log)
+echo "== demo WITHOUT change (expect exit 0)"; (cd /tmp/sv && PYTHONPATH=/repo timeout 1200 /venv/bin/python $DEMO > /tmp/sv/$NAME.demo_clean.log 2>&1; echo "exit=$?"; tail -2 /tmp/sv/$NAME.demo_clean.log)
 for C in $CHECKS; do
   echo "== ./check $C against the changed tree (expect exit 1)"
   (cd /verif && PYTHONPATH=$WT timeout 3000 ./check $C > /tmp/sv/$NAME.check_$C.log 2>&1; echo "exit=$?"; grep -E "^VIOLATION|signature|^OK|MACHINERY" /tmp/sv/$NAME.check_$C.log | head -4 | cut -c1-300)
@@ -25,3 +25,4 @@ mkdir -p /verif/seeded/$NAME
 cp $SRC/patch.diff $DEMO /verif/seeded/$NAME/ 2>/dev/null
 [ -f $SRC/meta.json ] && cp $SRC/meta.json /verif/seeded/$NAME/agent_meta.json
 cd /; git -C /repo worktree remove --force $WT
+echo "NOTE: the check runs above overwrote /verif/evidence/<id>.json with results from the CHANGED tree: git -C /verif checkout -- evidence"
